@@ -24,8 +24,9 @@ ASSUMPTIONS = [
     "new_header is not part of the property (the code never clears it after the first packet) and is not observed",
     "R tie (theorem): the DataPacketReceiver code elaborated from /repo with MAX_PACKET_SIZE = 7 and its two CRC sub-units replaced by "
     "2-bit xor-checksum stand-ins (classes injected from props/C40.py; the receiver's own code is untouched), sliced to the non-header "
-    "outputs, equals the model instantiated with the same stand-ins on ALL traces over the listed word alphabet (valid and invalid "
-    "words, ctrl errors, good and bad checksums).  The real CRC kernels are proved equal to the references in C30",
+    "outputs, equals the model instantiated with the same stand-ins on all traces whose input word of each cycle is in the explicit "
+    "list of the FSM state of that cycle (lists in obligation_list: valid and invalid words, ctrl errors, good and bad checksums, "
+    "several lengths).  The real CRC kernels are proved equal to the references in C30",
     "the complete module with the real CRC units (lw = 11, header output included) is compared with the model and with the "
     "specification monitor on simulator traces with full-width random payloads (correspondence, not proof)",
 ]
@@ -309,7 +310,7 @@ def _stream_stub(rng):
 
 def traces(target, rng, tier):
     kind, lw = target.params["kind"], target.params["lw"]
-    n = (16 if kind == "full" else 12) if tier == "quick" else 120
+    n = (16 if kind == "full" else 12) if tier == "quick" else 70
     out = []
     for k in range(n):
         ws = _stream_full(rng, lw) if (kind == "full" or rng.random() < 0.3) else _stream_stub(rng)
@@ -400,16 +401,19 @@ LEVEL_TEXT = ("Machine-checked proof about a code-shaped model of DataPacketRece
               "good iff crc32(payload) = the 4 bytes after it, with header CRCs valid (C40_packet_reported_once); the beats carry exactly "
               "data-length bytes and no report (C40_payload_is_data_length_bytes, C40_beats_carry_no_report); a ctrl symbol on a payload "
               "byte gives one bad (C40_ctrl_symbol_in_payload); a header with a wrong CRC gives no report (C40_bad_header).  The receiver's "
-              "netlist regenerated from /repo (small MAX_PACKET_SIZE, stand-in CRC units) is proved equal to the model on all traces over a "
-              "word alphabet (certified product reachability), hence satisfies the same specification (C40_drx_stub7_spec).  "
-              "THE UNCHANGED /repo CODE VIOLATES THE PROPERTY (5 confirmed defects, findings/C40-*); the check passes with "
-              "findings/C40-report-once.diff applied.")
+              "netlist regenerated from /repo (small MAX_PACKET_SIZE, stand-in CRC units) is proved equal to the model on all traces over "
+              "per-state word alphabets (certified product reachability), hence satisfies the same specification (C40_drx_stub7_spec).  "
+              "THE UNCHANGED /repo CODE VIOLATES THE PROPERTY (5 defects confirmed on the simulator, findings/C40-*.json); the check passes "
+              "with findings/C40-report-once.diff applied.")
 LEVEL_NOTE = ("Trusted: Coq kernel + vm_compute, Amaranth elaboration, nir2coq.py/Netlist.v (validated each run against pysim). The netlist "
-              "theorem is for the receiver code with stand-in CRC units and a 13-word alphabet (header output sliced away in the quick "
-              "tier; thorough adds a target with the header output over 7 words); the real CRC kernels are C30's theorems; the complete "
-              "module with real CRCs and full-width data is covered by correspondence with the model and by the specification monitor on "
-              "simulator traces, not by proof.  Packets whose header CRC is wrong get no report at all (the code's design): the property's "
-              "'every data packet' is read as 'every packet whose header was accepted'.")
+              "theorem is for the receiver's own code with MAX_PACKET_SIZE = 7, stand-in (2-bit xor) CRC units, the header output sliced away, "
+              "and traces whose word of each cycle is in the explicit list of that cycle's FSM state (valid/invalid words, every length "
+              "0..7 in the thorough tier (0,1,2,3,4,5 quick), good and wrong checksums/CRC-5, ctrl symbols on payload and CRC bytes, broken "
+              "framing); the thorough tier adds a target with the header output (smaller lists).  The real CRC kernels are C30's theorems; "
+              "the complete module with real CRCs, lw = 11 (thorough: also MAX_PACKET_SIZE = 12) and full-width data is covered by "
+              "correspondence with the model and by the specification monitor on simulator traces, not by proof.  Packets whose header CRC "
+              "is wrong get no report at all (the code's design): the property's 'every data packet' is read as 'every packet whose "
+              "header was accepted'.  new_header (never cleared by the code) is outside the property and not observed.")
 TECHNIQUE = ("Rocq proof: simulation relation between the FSM model and a list-accumulating specification parser (unbounded traces, "
              "parametric CRC units), CRC unit correctness from the bit-serial references, certified product-reachability lock-step "
-             "against the regenerated netlist over an explicit word alphabet, simulator correspondence + specification monitor")
+             "against the regenerated netlist over state-dependent word alphabets, simulator correspondence + specification monitor")
